@@ -35,14 +35,24 @@ REQUIRED_THEOREMS = ['Yaql.Props.C13.' + n for n in (
     'get_set combineDicts_right_biased combineDicts_assoc get_delete delete_then_containsKey mergeWith_disjoint '
     'memorize_same_elements memorize_interleaved memorize_interleaved_full unpack_binds unpack_binds_positional unpack_binds_named unpack_first '
     'mapM_pure filterM_pure flatMapM_pure takeWhileM_pure dropWhileM_pure distinctM_pure findM_pure reduceM_pure '
-    'scanM2_pure groupsM_pure sortRun_pure run_where run_select run_take run_skip run_reverse run_distinct run_orderBy_iter'
+    'scanM2_pure groupsM_pure sortRun_pure run_where run_select run_take run_skip run_reverse run_distinct run_orderBy_iter '
+    'select_map where_error_position takeWhile_error_position skipWhile_error_position select_never_truncates '
+    'where_never_truncates select_congr_dup lam_where_eval lam_first_eval noLazy_of_hashable run_select_lazy run_where_lazy '
+    'run_takeWhile_lazy run_skipWhile_lazy take_before_error take_past_error findM_error_position run_indexWhere_eager'
 ).split()]
 TRUSTED = ["CPython's sorted() is a stable sort (licensed by stable_sort_unique); Python ==/hash on the generated values "
            "is what Value.pyEq / canon model; iteration order of an input set is read from CPython",
            'harness/seqref.py (plain-Python transcription of the documented meaning, second opinion for every case)']
-ASSUMPTIONS = ['elements are null/bool/int/str, nested lists, dicts; no floats; sets and one-shot iterators only at top level',
+ASSUMPTIONS = ['elements are null/bool/int/float/str, nested lists, dicts; floats are finite, and arithmetic on them is predicted '
+               'only where the exact result is a double (IEEE arithmetic is correctly rounded); sets and one-shot iterators '
+               'in the input only at top level',
                'results that depend on the iteration order of a set built during evaluation are out of domain (skipped)',
-               'lambdas come from the closed family Lam/Lam2 of Model/SeqRun.lean']
+               'lambdas come from the closed family Lam/Lam2 of Model/SeqRun.lean (arithmetic, comparison, member, index, '
+               'constant; on nested collections len/first/last/single/sum, the lazy where/select/take/range, str, / 2)',
+               'a generator returned by a lambda is followed through operations that hand elements on once without hashing, '
+               'comparing or inspecting them (Op.linear) and into the finaliser; hashing / comparing / consuming it twice, '
+               'and a generator that would raise when it is consumed after the lambda returned, are out of domain for the '
+               'Lean model (the plain-Python reference still decides the oracle there)']
 
 OPTIONS = {'yaql.convertSetsToLists': True, 'yaql.limitIterators': 10000, 'yaql.memoryQuota': 10000000}
 
@@ -220,6 +230,8 @@ def dec_model(j):
     (k, x), = j.items()
     if k == 'i':
         return int(x)
+    if k == 'f':
+        return values.bits2f(x)
     if k == 's':
         return ''.join(chr(c) for c in x)
     if k in ('tu', 'li', 'it'):
@@ -323,6 +335,8 @@ def dec_rt(j):
     (k, x), = j.items()
     if k == 'i':
         return int(x)
+    if k == 'f':
+        return values.bits2f(x)
     if k == 's':
         return ''.join(chr(c) for c in x)
     if k in ('tu', 'li'):
@@ -368,13 +382,19 @@ def lam_from_json(j):
         return ['pair', lam_from_json(j[1]), lam_from_json(j[2])]
     if t == 'eq':
         return ['eq', lam_from_json(j[1]), dec_rt(j[2])]
+    if t in ('len', 'single', 'sum', 'range', 'str', 'half'):
+        return [t, lam_from_json(j[1])]
+    if t in ('first', 'last'):
+        return [t, lam_from_json(j[1]), [dec_rt(v) for v in j[2]]]
+    if t in ('where', 'select'):
+        return [t, lam_from_json(j[1]), lam_from_json(j[2])]
     return [t, lam_from_json(j[1]), j[2]]
 
 
 def lam2_from_json(j):
     if j[0] == 'const':
         return ['const', dec_rt(j[1])]
-    if j[0] in ('on1', 'on2'):
+    if j[0] in ('on1', 'on2', 'plusOn'):
         return [j[0], lam_from_json(j[1])]
     return [j[0]]
 
@@ -415,6 +435,20 @@ def shrink(value, ops, drv, kind, binder=None):
                 if fails(cv, ops, drv, kind, binder):
                     value, changed = cv, True
                     break
+            else:
+                # members of the inner lists
+                for i, x in enumerate(items):
+                    if not isinstance(x, tuple) or not x:
+                        continue
+                    hit = False
+                    for j in range(len(x)):
+                        cand = items[:i] + [x[:j] + x[j + 1:]] + items[i + 1:]
+                        cv = seqgen.Iter(cand) if isinstance(value, seqgen.Iter) else tuple(cand)
+                        if fails(cv, ops, drv, kind, binder):
+                            value, changed, hit = cv, True, True
+                            break
+                    if hit:
+                        break
     return value, ops
 
 
@@ -425,11 +459,26 @@ def failure_key(ops, info):
     return names[:60]
 
 
+def lam_tags(x, acc):
+    """constructors used by the lambdas of an op (nested ones included)"""
+    if isinstance(x, list) and x and isinstance(x[0], str) and x[0] in LAM_TAGS:
+        acc[x[0]] = acc.get(x[0], 0) + 1
+        for y in x[1:]:
+            lam_tags(y, acc)
+    return acc
+
+
+LAZY_TAGS = ('where', 'select', 'take', 'range')
+LAM_TAGS = frozenset('arg const add mul mod gt eq member index not pair len first last single sum where select take range '
+                     'str half fst snd plus max on1 on2 plusOn'.split())
+
+
 def work(args):
     fname, n_cases, seed, use_model = args
     rng = common.make_rng(seed, 'C13/' + fname)
     drv = common.Driver() if use_model else None
-    out = dict(fname=fname, cases=[], failures=[], hist={}, n=0, ood=0, errs={}, kinds={}, sizes={}, stages={})
+    out = dict(fname=fname, cases=[], failures=[], hist={}, n=0, ood=0, errs={}, kinds={}, sizes={}, stages={},
+               profiles={}, lams={}, lazy_lambda=[0, 0, 0], dup_nested=0, twins=0)
     try:
         batch = []
         for _ in range(n_cases):
@@ -449,6 +498,27 @@ def work(args):
             n_el = len(seqgen.Ctx(kind, prof, value).elems)
             out['sizes'][n_el] = out['sizes'].get(n_el, 0) + 1
             out['stages'][len(ops)] = out['stages'].get(len(ops), 0) + 1
+            pr = out['profiles'].setdefault(prof, [0, 0, 0])        # cases, out of domain, real exceptions
+            pr[0] += 1
+            pr[1] += 1 if ood else 0
+            pr[2] += 1 if real[0] == 'err' else 0
+            tags = {}
+            for a in ops:
+                for k in ('l', 'l2', 'l3', 'f2', 'g2'):
+                    lam_tags(a.get(k), tags)
+            for k, v in tags.items():
+                out['lams'][k] = out['lams'].get(k, 0) + 1
+            if any(t in tags for t in LAZY_TAGS):                   # a lambda that returns a lazy sequence
+                out['lazy_lambda'][0] += 1
+                out['lazy_lambda'][1] += 1 if ood else 0
+                out['lazy_lambda'][2] += 1 if real[0] == 'err' else 0
+            els = seqgen.Ctx(kind, prof, value).elems
+            nested = [x for x in els if isinstance(x, tuple)]
+            if len(nested) != len(set(nested)):
+                out['dup_nested'] += 1                              # the same inner list more than once
+            flat = [y for x in els for y in (x if isinstance(x, tuple) else (x,)) if isinstance(y, (int, float))]
+            if any(a == b and type(a) is not type(b) for i, a in enumerate(flat) for b in flat[i + 1:]):
+                out['twins'] += 1                                   # equal scalars of different type side by side
             nontrivial = real[0] == 'ok' and not ood
             out['cases'].append((common.digest([info['text'], repr(value)]), nontrivial))
             if f and len(out['failures']) < 3:
@@ -469,9 +539,13 @@ def run(env, res):
     tier = env['tier']
     use_model = env['driver'] is not None
     res.rule = ('per function f: pipelines of <= 4 stages containing f, on tuples / sets / dicts / one-shot iterators / '
-                'scalars of size 0..6 with duplicates, nulls, nesting; lambdas from the Lam family; integer arguments in '
-                '[-len-2, len+2]; distinct = distinct (expression text, data); non-trivial = the real evaluation returns a '
-                'value and the case is inside the modelled domain')
+                'scalars of size 0..6 with duplicates, nulls, nesting; element profiles include lists of small lists with '
+                'REPEATED and empty inner lists and 1 / 1.0 / true, 0 / 0.0 / false side by side (top level and nested); '
+                'lambdas from the Lam family, on nested profiles len / first / last / single / sum / str / halving and the '
+                'lazy where / select / take / range, whose failures (StopIteration of first() on an empty inner list...) '
+                'must surface with their class when the lazy result is consumed, after the prefix before them; integer '
+                'arguments in [-len-2, len+2]; distinct = distinct (expression text, data); non-trivial = the real '
+                'evaluation returns a value and the case is inside the modelled domain')
     if env['replay']:
         rp = json.load(open(env['replay']))
         case = rp['case']
@@ -492,6 +566,7 @@ def run(env, res):
     with multiprocessing.Pool(nproc) as pool:
         results = pool.map(work, jobs, chunksize=1)
     per_fn, errs, kinds, sizes, stages, ood = {}, {}, {}, {}, {}, 0
+    profiles, lams, lazy_lambda, dup_nested, twins = {}, {}, [0, 0, 0], 0, 0
     for out in results:
         for sig, nt in out['cases']:
             res.case(sig, nt)
@@ -502,13 +577,24 @@ def run(env, res):
             res.fail(kind, key, what, replay)
         per_fn[out['fname']] = dict(cases=out['n'], out_of_domain=out['ood'], errors=sum(out['errs'].values()))
         ood += out['ood']
-        for src, dst in ((out['errs'], errs), (out['kinds'], kinds), (out['sizes'], sizes), (out['stages'], stages)):
+        for src, dst in ((out['errs'], errs), (out['kinds'], kinds), (out['sizes'], sizes), (out['stages'], stages),
+                         (out['lams'], lams)):
             for k, v in src.items():
                 dst[str(k)] = dst.get(str(k), 0) + v
+        for k, v in out['profiles'].items():
+            profiles[k] = [a + b for a, b in zip(profiles.get(k, [0, 0, 0]), v)]
+        lazy_lambda = [a + b for a, b in zip(lazy_lambda, out['lazy_lambda'])]
+        dup_nested += out['dup_nested']
+        twins += out['twins']
     res.extra['functions'] = len(FUNCTIONS)
     res.extra['per_function'] = per_fn
     res.extra['histogram'] = dict(receiver_kinds=kinds, sizes=sizes, stages=stages, real_error_classes=errs,
-                                  out_of_domain=ood)
+                                  out_of_domain=ood,
+                                  element_profiles_cases_ood_errors=profiles,
+                                  lambda_constructors_cases=lams,
+                                  lazy_valued_lambda_cases_ood_errors=lazy_lambda,
+                                  cases_with_repeated_inner_lists=dup_nested,
+                                  cases_with_equal_scalars_of_different_type=twins)
     res.extra['correspondence_wall_s'] = round(time.time() - t0, 1)
     return res
 
@@ -519,15 +605,20 @@ LEVEL_TEXT = ('Lean 4 theorems, for collections of EVERY size, about a list-leve
               'sorted); thenBy is the lexicographic comparator; groupBy partitions the input keeping encounter order with '
               'keys in first-occurrence order; the algebraic laws between where/select/take/skip/distinct/zip/slice/'
               'splitAt/splitWhere/sliceWhere/indexOf/insert/delete/replace/accumulate/aggregate/any/all/first; set algebra '
-              'and dict laws under Python equality; memorize and unpack (lists and one-shot iterators).  The model is tied '
+              'and dict laws under Python equality (1 == 1.0 == true); memorize and unpack (lists and one-shot iterators); '
+              'lambdas are applied element by element - select is map including the position of an exception, a lazy '
+              'select / where that ends without an exception has applied its lambda successfully to every element (never '
+              'silently truncated), equal elements get equal results also when these are lazy sequences.  The model is tied '
               'to the code by running, per function, generated pipelines of <= 4 stages on the real engine, on the compiled '
               'model and on an independent plain-Python transcription of the documented meaning, and comparing finalised '
               'results / exception classes three ways.')
 LEVEL_NOTE = ('trusted: Lean kernel; the hand-written model Yaql/Model/Seq.lean + SeqRun.lean (lambdas restricted to the closed '
               'family Lam/Lam2; Python ==/hash modelled by a canonical form; lazy sequences as "items then optional '
-              'exception"); harness/seqref.py; CPython sorted() being a stable sort. Doc-silent spots are modelled as '
+              'exception"; doubles by exact integer arithmetic on their bits, predicted only where the exact result is a '
+              'double); harness/seqref.py; CPython sorted() being a stable sort. Doc-silent spots are modelled as '
               'implemented and listed in notes/C13.md. Out-of-domain (skipped, counted): results depending on the iteration '
-              'order of a set built during evaluation, nested lazy projections, sets as sort keys; for sorts that must raise, '
+              'order of a set built during evaluation, nested lazy projections, sets as sort keys, generators (lazy lambda '
+              'results) that are hashed / compared / consumed twice or that raise after the lambda returned; for sorts that must raise, '
               'only "raises" is compared when the first exception depends on the sort algorithm.')
 TECHNIQUE = 'Lean 4 proof (list induction, core mergeSort lemmas) + three-way differential run of generated pipelines'
 DESIGN_REF = 'DESIGN.md section 5, C13'
